@@ -137,7 +137,7 @@ def item (reg : Reg) (fuel : Nat) (j : J) : J :=
       | .error .coercion => .obj [("err", .str "arguments")]
       | .error .fuel => .obj [("err", .str "fuel")]
       | .error .internal => .obj [("err", .str "internal")]
-      | .ok kw => .obj [("ok", kwToWire kw), ("vars", kwToWire env)]
+      | .ok kw => .obj [("ok", kwToWire (dictOfAssignments kw)), ("vars", kwToWire env)]
   | "allowed" =>
     let vt := Driver.tyOfJson (j.getD "vt")
     let lt := Driver.tyOfJson (j.getD "lt")
